@@ -91,7 +91,7 @@ func (db *DB) repairCompactions() error {
 		absReplacementPath := filepath.Join(db.basePath, meta.ReplacementPath)
 
 		log.Printf("finishing compaction in %s into %s", absWritePath, absReplacementPath)
-		err := os.RemoveAll(absReplacementPath)
+		err := removeSSTable(absReplacementPath)
 		if err != nil {
 			return err
 		}
@@ -103,7 +103,7 @@ func (db *DB) repairCompactions() error {
 
 		for _, sstablePath := range meta.SstablePaths {
 			if sstablePath != meta.ReplacementPath {
-				err := os.RemoveAll(filepath.Join(db.basePath, sstablePath))
+				err := removeSSTable(filepath.Join(db.basePath, sstablePath))
 				if err != nil {
 					return err
 				}
@@ -157,7 +157,7 @@ func (db *DB) reconstructSSTables() error {
 			}
 			if incomplete {
 				log.Printf("found incomplete sstable to be deleted in %v", p)
-				err = os.RemoveAll(p)
+				err = removeSSTable(p)
 				if err != nil {
 					return err
 				}
@@ -209,6 +209,18 @@ func isIncompleteSSTable(tablePath string) (bool, error) {
 		return false, err
 	}
 	return info.Size() == 0, nil
+}
+
+// removeSSTable deletes a table directory such that the deletion can stop at any point: the index file goes first, which
+// makes whatever remains recognizable as incomplete (see isIncompleteSSTable) and the next recovery deletes the rest.
+// Removing the files in directory order can leave a table without its metadata file, which would be taken for a table
+// of the legacy format.
+func removeSSTable(tablePath string) error {
+	err := os.Remove(filepath.Join(tablePath, sstables.IndexFileName))
+	if err != nil && !os.IsNotExist(err) {
+		return err
+	}
+	return os.RemoveAll(tablePath)
 }
 
 func (db *DB) replayAndSetupWriteAheadLog() error {
